@@ -123,6 +123,8 @@ type runOpts struct {
 	onStep        func(r *histRunner, i int, op *Op) error
 	afterGC       func(r *histRunner, bucket, begin, end int, merge bool, before *gcBefore) error
 	skipReopenGC  bool
+	beforeGC      func(r *histRunner)
+	hookExtra     func(r *histRunner) func(name string, args ...interface{}) // installed after the hook state is reset
 	noCloseAtEnd  bool
 }
 
@@ -137,6 +139,8 @@ type histRunner struct {
 	inGrp  []bool
 
 	lastResolved Op
+	preGC        []*mkey
+	curOp        int
 	wroteUnserved map[int]bool
 	readsAny     map[string]int
 	listedAfter  int
@@ -850,6 +854,17 @@ func (r *histRunner) scanBucket(bkt *Bucket) map[string][]verifkit.ScanRec {
 	return out
 }
 
+// cloneModel returns a deep copy of the model.
+func (r *histRunner) cloneModel() []*mkey {
+	out := make([]*mkey, len(r.model))
+	for i, m := range r.model {
+		c := *m
+		c.Vers = append([]int32(nil), m.Vers...)
+		out[i] = &c
+	}
+	return out
+}
+
 // gcBefore is the state of a bucket right before a GC pass.
 type gcBefore struct {
 	recs    map[string][]verifkit.ScanRec
@@ -923,6 +938,9 @@ func (r *histRunner) doGC(op *Op) error {
 	var before *gcBefore
 	if r.opts.afterGC != nil {
 		before = r.snapshotForGC(bkt)
+	}
+	if r.opts.beforeGC != nil {
+		r.opts.beforeGC(r)
 	}
 	if op.ViaAPI {
 		exits := hooks.count("gc.pass.exit")
@@ -1016,6 +1034,12 @@ func (r *histRunner) run() (err error) {
 	}()
 	applyCfg(&r.h.Cfg, r.home)
 	hooks.reset(r.h.Cfg.ParkRotFlush)
+	if r.opts.hookExtra != nil {
+		f := r.opts.hookExtra(r)
+		hooks.mu.Lock()
+		hooks.extra = f
+		hooks.mu.Unlock()
+	}
 	theHub.takeErrors()
 	r.store, err = openStore(&r.h.Cfg)
 	if err != nil {
@@ -1038,6 +1062,7 @@ func (r *histRunner) run() (err error) {
 	}()
 	for i := range r.h.Ops {
 		op := &r.h.Ops[i]
+		r.curOp = i
 		if traceHooks {
 			fmt.Fprintf(os.Stderr, "OP %d %s\n", i, opString(op, &r.h.Cfg))
 		}
